@@ -18,6 +18,7 @@ LEVEL = "exploration"
 IDS = {"A": 7, "B": 3, "C": 100}
 KINDS = ["0/0", "1/1", "0/1", "A0|1", "A1|0", "B0|1", "B1|0", "./.", "0/.", "i0/1", "iA0|1", "hA1|1"]
 KINDS_T = KINDS + ["C0|1", "iB1|0"]
+IDS_ALL = True
 ADDITIVE = ["variants", "phased", "unphased", "singletons", "blocks", "variant_per_block_sum", "bp_per_block_sum", "heterozygous_variants", "heterozygous_snvs", "phased_snvs"]
 
 
@@ -220,6 +221,12 @@ def space(tier):
                 yield ([("chr1", list(seq))], "HP", False, None, False)
                 if any(k.startswith("i") for k in seq):
                     yield ([("chr1", list(seq))], "PS", True, None, False)
+    # three interleaved / nested phase sets over 6-9 (10) phased variants (splitting into non-overlapping pieces)
+    for n in (6, 7, 8, 9) + ((10,) if T else ()):
+        for seq in itertools.product(["A0|1", "B0|1", "C0|1"], repeat=n):
+            if seq[0] != "A0|1" or "B0|1" not in seq or (seq.index("B0|1") > seq.index("C0|1") if "C0|1" in seq else False):
+                continue
+            yield ([("chr1", list(seq))], "PS", False, None, False)
     K2 = ["0/1", "A0|1", "A1|0", "B0|1", "1/1", "./.", "iA0|1"] + (["B1|0", "0/."] if T else [])
     seqs = [s for n in (1, 2, 3) for s in itertools.product(K2, repeat=n) if n <= 2 or (T and n == 3 and s[0] != "1/1")]
     for s1 in seqs:
